@@ -1009,7 +1009,16 @@ class VCGen:
                 if re.fullmatch(r'\d+', y) and (int(y) & (int(y) + 1)) == 0 and not isinstance(ct, MathT):
                     # x & (2^k - 1): low k bits (two's complement => mod for either sign)
                     return self.define('m', Val(S('mod', x, smt_int(int(y) + 1)), 'I', ct))
-            raise Unsupported("general bitwise &")
+        if op in ('&', '|', '^') and not isinstance(ct, MathT):
+            # general bitwise operator: through bit-vectors of the operand type's width (two's complement)
+            w = ct.bits
+            def tobv(x):
+                return "((_ int2bv %d) %s)" % (w, x)
+            r = "(bv2nat (%s %s %s))" % ({'&': 'bvand', '|': 'bvor', '^': 'bvxor'}[op], tobv(at), tobv(bt))
+            if ct.signed:
+                half = smt_int(1 << (w - 1))
+                r = S('ite', S('>=', r, half), S('-', r, smt_int(1 << w)), r)
+            return self.define('bw', Val(r, 'I', ct))
         raise Unsupported("binary operator " + op)
 
     def ev_assign(self, e, st, line):
@@ -1363,23 +1372,23 @@ SOLVERS = (('z3-new', lambda t: ['z3-new', '-in', '-T:%d' % t]),
            ('cvc5', lambda t: ['cvc5', '--lang=smt2', '--produce-models', '--nl-ext-tplanes', '--tlimit=%d' % (t * 1000), '-']))
 
 
-def discharge(o, timeout=60, want_sat=False):
-    """race z3-new and cvc5 on the same query; first decisive answer (unsat/sat) wins.
-    returns status in {'proved','failed','unknown'}"""
-    import tempfile
-    text = o.smt()
+import threading
+_SEM = threading.Semaphore(int(os.environ.get('INTWP_RACES', '10')))   # concurrent solver races (1-2 processes each)
+
+
+def _run_race(path, names, timeout):
+    """run the named solvers concurrently on file `path`; first decisive answer (unsat/sat) wins"""
     t0 = time.time()
     procs = []
-    with tempfile.NamedTemporaryFile('w', suffix='.smt2', delete=False, dir=os.environ.get('INTWP_TMP', '/var/tmp')) as f:
-        f.write(text)
-        path = f.name
+    _SEM.acquire()
+    for name, mk in SOLVERS:
+        if name not in names:
+            continue
+        cmd = [c for c in mk(timeout) if c not in ('-in', '-')] + [path]
+        procs.append((name, subprocess.Popen(cmd, stdout=subprocess.PIPE, stderr=subprocess.DEVNULL, text=True)))
+    pending = dict(procs)
+    result = None
     try:
-        for name, mk in SOLVERS:
-            cmd = mk(timeout)
-            cmd = [c for c in cmd if c not in ('-in', '-')] + [path]
-            procs.append((name, subprocess.Popen(cmd, stdout=subprocess.PIPE, stderr=subprocess.DEVNULL, text=True)))
-        pending = dict(procs)
-        result = None
         while pending and time.time() - t0 < timeout + 5:
             for name, p in list(pending.items()):
                 if p.poll() is not None:
@@ -1391,11 +1400,29 @@ def discharge(o, timeout=60, want_sat=False):
                         break
             if result:
                 break
-            time.sleep(0.01)
+            time.sleep(0.005)
+    finally:
         for name, p in procs:
             if p.poll() is None:
                 p.kill()
-                p.wait()
+            p.wait()
+        _SEM.release()
+    return result
+
+
+def discharge(o, timeout=60, want_sat=False):
+    """z3-new alone for a few seconds (most obligations take 0.1 s); then z3-new and cvc5 raced with the full timeout.
+    returns status in {'proved','failed','unknown'}"""
+    import tempfile
+    text = o.smt()
+    t0 = time.time()
+    with tempfile.NamedTemporaryFile('w', suffix='.smt2', delete=False, dir=os.environ.get('INTWP_TMP', '/var/tmp')) as f:
+        f.write(text)
+        path = f.name
+    try:
+        result = _run_race(path, ('z3-new',), min(4, timeout))
+        if result is None:
+            result = _run_race(path, ('z3-new', 'cvc5'), timeout)
     finally:
         os.unlink(path)
     o.secs = time.time() - t0
